@@ -41,6 +41,7 @@ type c18Input struct {
 	Flip    int        `json:"flip,omitempty"` // verify: index of the cookie byte to change (-1 none)
 	Hellos  []c18Hello `json:"hellos,omitempty"`
 	Suite   uint16     `json:"suite,omitempty"`
+	Kind2   string     `json:"kind2,omitempty"` // otherconn: "server" (dtlcp.Server twice on one Config) | "listener" (two Accepts on one dtlcp.NewListener)
 	// loop: SecretEmpty configures a non-nil empty CookieSecret (what []byte("") yields); RandSeed makes
 	// Config.Rand a known stream, so that the secret an unconfigured connection draws is known
 	// loop: Cached: the server holds a session cache, and every hello names the identifier of a session in it
@@ -97,6 +98,8 @@ func c18AddCase(out *emit.Out, scenario string, in c18Input) {
 				emit.Bytes(in.Secret2), emit.Bytes([]byte(in.Addr2)), emit.Bytes(in.Params2), emit.Bytes(pres), emit.Bool(same), emit.Bool(ok))})
 	case "foreign":
 		c18Foreign(out, scenario, in)
+	case "otherconn":
+		c18OtherConn(out, scenario, in)
 	case "loop":
 		c18Loop(out, scenario, in)
 	}
@@ -154,6 +157,96 @@ func c18Foreign(out *emit.Out, scenario string, in c18Input) {
 	out.Add(emit.Case{Scenario: scenario, Trivial: false, Input: in,
 		Observed: map[string]interface{}{"cookie_len": len(cookie), "responses": len(resp), "first": firstT, "key_ops": ops, "bound": a1.String(), "from": a2.String()},
 		Coq:      fmt.Sprintf("ForeignCase %s %s %d%%nat %d %d%%nat", emit.Bool(len(cookie) > 0), emit.Bool(same), len(resp), firstT, ops)})
+}
+
+// c18LConn is what a datagram listener's inner net.Listener hands out: a net.Conn that is also a net.PacketConn.
+type c18LConn struct {
+	*tk.SinkPC
+	remote net.Addr
+}
+
+func (c *c18LConn) Read(b []byte) (int, error)  { n, _, err := c.ReadFrom(b); return n, err }
+func (c *c18LConn) Write(b []byte) (int, error) { return c.WriteTo(b, c.remote) }
+func (c *c18LConn) RemoteAddr() net.Addr        { return c.remote }
+
+type c18Inner struct{ ch chan net.Conn }
+
+func (l *c18Inner) Accept() (net.Conn, error) {
+	c, ok := <-l.ch
+	if !ok {
+		return nil, net.ErrClosed
+	}
+	return c, nil
+}
+func (l *c18Inner) Close() error   { return nil }
+func (l *c18Inner) Addr() net.Addr { return c18UDP("10.0.0.2:5000") }
+
+// c18OtherConn: no cookie secret is configured.  Two server connections over the same configuration and client address,
+// created one after the other either by dtlcp.Server on the same Config object or by Accept on one dtlcp.NewListener;
+// the second receives, as its first datagram, the same hello carrying the cookie the first connection issued.
+func c18OtherConn(out *emit.Out, scenario string, in c18Input) {
+	p := tk.GetPKI()
+	a1 := c18UDP(in.Addr)
+	h := *in.Hello
+	sigK := &tk.CountKey{Inner: p.SrvSig.Key}
+	encK := &tk.CountKey{Inner: p.SrvEnc.Key}
+	scfg := tk.BuildDTLCP(tk.EPConfig{Ident: "srv", Suites: []uint16{0xe013}, RetransMs: 20, MaxRetransMs: 40}, nil)
+	if in.SecretEmpty {
+		scfg.CookieSecret = []byte{}
+	}
+	scfg.Certificates[0].PrivateKey = sigK
+	scfg.Certificates[1].PrivateKey = encK
+	inner := &c18Inner{ch: make(chan net.Conn, 2)}
+	var ln net.Listener
+	if in.Kind2 == "listener" {
+		ln = dtlcp.NewListener(inner, scfg)
+	}
+	run := func(cookie []byte) (resp [][]byte) {
+		pc := tk.NewSinkPC()
+		pc.Local, pc.Remote = c18UDP("10.0.0.2:5000"), a1
+		d, _ := helloDatagram(h, cookie, 0, 0)
+		pc.Inbox = [][]byte{d}
+		var srv *dtlcp.Conn
+		if ln != nil {
+			inner.ch <- &c18LConn{SinkPC: pc, remote: a1}
+			c, err := ln.Accept()
+			if err != nil {
+				return nil
+			}
+			srv = c.(*dtlcp.Conn)
+		} else {
+			srv = dtlcp.Server(pc, a1, scfg)
+		}
+		done := make(chan struct{})
+		go func() { defer close(done); defer func() { recover() }(); srv.Handshake() }()
+		select {
+		case <-done:
+		case <-time.After(5 * time.Second):
+		}
+		return pc.Out
+	}
+	cookieOf := func(resp [][]byte) []byte {
+		if len(resp) >= 1 && len(resp[0]) >= 13+12+3 && resp[0][13] == 3 {
+			cl := int(resp[0][13+12+2])
+			if 13+12+3+cl <= len(resp[0]) {
+				return resp[0][13+12+3 : 13+12+3+cl]
+			}
+		}
+		return nil
+	}
+	first := run(nil)
+	c1 := cookieOf(first)
+	ops0 := sigK.Ops() + encK.Ops()
+	resp := run(c1)
+	ops := sigK.Ops() + encK.Ops() - ops0
+	firstT := 0
+	if len(resp) > 0 && len(resp[0]) >= 14 {
+		firstT = int(resp[0][0])*256 + int(resp[0][13])
+	}
+	c2 := cookieOf(resp)
+	out.Add(emit.Case{Scenario: scenario, Trivial: false, Input: in,
+		Observed: map[string]interface{}{"cookie_len": len(c1), "responses": len(resp), "first": firstT, "key_ops": ops, "same_cookie": len(c1) > 0 && string(c1) == string(c2)},
+		Coq: fmt.Sprintf("OtherConnCase %s %d%%nat %d %d%%nat %s", emit.Bool(len(c1) > 0), len(resp), firstT, ops, emit.Bool(len(c1) > 0 && string(c1) == string(c2)))})
 }
 
 func c18Loop(out *emit.Out, scenario string, in c18Input) {
@@ -460,6 +553,27 @@ func runC18(p params) error {
 		h1.Cookie, h2.Cookie, h3.Cookie = "none", "prev", "prev"
 		h2.Vers = []uint16{0x0101, 0x0101, 0x0102}[k]
 		c18AddCase(out, "loop-version-changed", c18Input{Kind: "loop", Secret: rb(32), Hellos: []c18Hello{h1, h2, h3}, Suite: 0xe013, Addr: "10.1.2.3:40000"})
+	}
+	// hellos that differ only in a way a decoder might normalise away (a repeated or reordered or unknown suite, a
+	// repeated compression method): the cookie covers the bytes that were sent, so the first one's cookie is worth
+	// nothing for the second
+	for k, v := range [][]uint16{{0xe053, 0xe053, 0xe013}, {0xe013, 0xe053}, {0xe053, 0xe013, 0x00ff}, {0xe053, 0xe013, 0xe013}, {0xe053, 0xe013}} {
+		h := mkHello()
+		h.Vers, h.Suites, h.Comp = 0x0101, []uint16{0xe053, 0xe013}, []byte{0}
+		h1, h2, h3 := h, h, h
+		h1.Cookie, h2.Cookie, h3.Cookie = "none", "prev", "prev"
+		h2.Suites = v
+		if k == 4 {
+			h2.Comp = []byte{0, 0}
+		}
+		c18AddCase(out, "loop-same-meaning-other-bytes", c18Input{Kind: "loop", Secret: rb(32), Hellos: []c18Hello{h1, h2, h3}, Suite: []uint16{0xe053, 0xe013}[k%2], Addr: "10.1.2.3:40000"})
+	}
+	// no secret configured: the cookie one connection issued is worth nothing on the next connection of the same
+	// configuration / listener (each connection draws its own secret)
+	for k := 0; k < 4; k++ {
+		h := mkHello()
+		h.Vers, h.Suites, h.Comp = 0x0101, []uint16{0xe053, 0xe013}, []byte{0}
+		c18AddCase(out, "other-connection-"+[]string{"server", "listener"}[k%2], c18Input{Kind: "otherconn", Kind2: []string{"server", "listener"}[k%2], Hello: &h, Addr: "10.1.2.3:40000", SecretEmpty: k >= 2})
 	}
 	// the hellos name a session the server holds in its cache: a cookie is still required first
 	for k := 0; k < 3; k++ {
